@@ -50,7 +50,7 @@ func c15(c *Ctx) {
 	var files []*gen.File
 	n := c.N(60, 2500)
 	for i := 0; i < n; i++ {
-		o := gen.Opts{ObjRefs: true, ClassExprs: true, AttributesCmd: i%2 == 0, NonASCII: i%3 == 0, MaxDepth: 2 + i%2, BlankLines: true, VerbSpacing: true, TrailingSpace: i%2 == 1, Trailers: i%4 == 0, MultiLineFrags: i%5 == 0}
+		o := gen.Opts{ObjRefs: true, ClassExprs: true, AttributesCmd: i%2 == 0, NonASCII: i%3 == 0, MaxDepth: 2 + i%2, BlankLines: true, VerbSpacing: true, TrailingSpace: i%2 == 1, Trailers: i%4 == 0, MultiLineFrags: i%5 == 0, UnescBlocks: true, Switch: true}
 		f := gen.GenFile(newRand(c.R.Int63()), o, 1+i%2, 2+i%3)
 		_, src := f.Print()
 		ins = append(ins, []byte(src))
@@ -292,11 +292,16 @@ func (c *Ctx) genC11(i int, risky bool) c11File {
 	}
 	// the same path may be imported under an alias, dot or blank name AND plainly: both lines are kept
 	imps := []string{`"fmt"`, `str "strings"`, `. "math"`, `_ "embed"`, `"context"`, `"io"`, `"fmt"`, `"github.com/stackus/goht"`,
-		`"strings"`, `"math"`, `"embed"`, `"io/fs"`, `f "fmt"`, `"fmt" // formatted I/O`, `ctx "context"`, `"os" // č 上 not the end`}
+		`"strings"`, `"math"`, `"embed"`, `"io/fs"`, `f "fmt"`, `"fmt" // formatted I/O`, `ctx "context"`, `"os" // č 上 not the end`,
+		// imports goht adds itself, written with a comment behind them; paths written as raw strings
+		`"io" // Discard, below`, `"context"  // ctx`, `"io" /* Discard */`, `"github.com/stackus/goht" // the "runtime"`, "`os/exec`", "_ `image/png`", "p `path`"}
 	r.Shuffle(len(imps), func(a, b int) { imps[a], imps[b] = imps[b], imps[a] })
 	imps = imps[:r.Intn(len(imps)+1)]
 	seen := map[string]bool{`"context"`: true, `"io"`: true, `"github.com/stackus/goht"`: true}
 	addImp := func(s string) {
+		if own := map[string]bool{`"context"`: true, `"io"`: true, `"github.com/stackus/goht"`: true}; own[specOf(s)] {
+			return // one of goht's own imports with a comment behind it: goht's own imports appear once
+		}
 		if !seen[s] {
 			seen[s] = true
 			f.imports = append(f.imports, s)
@@ -535,6 +540,16 @@ func c11(c *Ctx) {
 			report("go-code", fmt.Sprintf("Go lines outside templates differ: %s", clip(firstDiff(strings.Join(gotLines, "\n"), strings.Join(f.goLines, "\n")), 240)))
 		}
 	}
+}
+
+// specOf: an import up to the closing quote of its path (what follows is a comment)
+func specOf(s string) string {
+	if open := strings.IndexAny(s, "\"`"); open >= 0 {
+		if n := strings.IndexByte(s[open+1:], s[open]); n >= 0 {
+			s = s[:open+n+2]
+		}
+	}
+	return strings.TrimSpace(s)
 }
 
 func contains(xs []string, s string) bool {
